@@ -1,9 +1,9 @@
 (* C06 - completion items are applicable edits; lists honour limit and 'complete' flag.
    Models: Model/Snippet.v (Constraint.EmptyCompletionData for every constraint kind, with and without
    required-field prefilling), Model/Completion.v (candidate lists, limit, complete flag),
-   Base/Pos.v (edit range); each compared with the implementation on every run. *)
+   Base/Pos.v (edit range), Model/HookCands.v (attribute values with completion hooks); each compared with the implementation on every run. *)
 From Coq Require Import String List ZArith Bool.
-From HV Require Import Base.Pos Model.Schema Model.Ast Model.Snippet Model.Completion Proofs.SnippetProofs Proofs.CompletionProofs.
+From HV Require Import Base.Pos Model.Schema Model.Ast Model.Snippet Model.Completion Proofs.SnippetProofs Proofs.CompletionProofs Model.HookCands Proofs.HookCandsProofs.
 
 (* the snippet of every constraint - at any nesting of lists, sets, tuples, maps, objects, one-of and
    type-driven expansions - is either empty (the caller falls back) or uses exactly the tab stops
@@ -33,3 +33,30 @@ Theorem C06_edit_range_reaches_cursor : forall fname lc r p,
   (p_byte (r_start (edit_range r p)) <= p_byte p <= p_byte (r_end (edit_range r p)))%Z.
 Proof. exact edit_range_reaches_cursor. Qed.
 Print Assumptions C06_edit_range_reaches_cursor.
+
+(* candidates contributed by completion hooks carry an edit range that is a real range of the
+   requested file, starts at or before the cursor and reaches it *)
+Theorem C06_hook_edit_range_reaches_cursor : forall fname lc e em p,
+  good_range fname lc e -> good_pos lc p -> (em = false -> (p_byte p <= p_byte (r_end e))%Z) ->
+  good_range fname lc (hook_edit_range e em p) /\
+  (p_byte (r_start (hook_edit_range e em p)) <= p_byte p <= p_byte (r_end (hook_edit_range e em p)))%Z.
+Proof. exact hook_edit_range_good. Qed.
+Print Assumptions C06_hook_edit_range_reaches_cursor.
+
+(* hook candidates and the value's own candidates together never exceed the limit: the list is the
+   hook results in schema order followed by the expression's candidates, cut at the limit *)
+Theorem C06_hooked_list_is_prefix_within_limit : forall max has_hooks string_typed results er exprc,
+  snd (attr_value_completion max has_hooks string_typed results er exprc) =
+    firstn max (map (as_hook er) (all_hook_results has_hooks string_typed results) ++ map as_expr exprc) /\
+  (length (snd (attr_value_completion max has_hooks string_typed results er exprc)) <= max)%nat.
+Proof. exact attr_value_completion_list_within_limit. Qed.
+Print Assumptions C06_hooked_list_is_prefix_within_limit.
+
+(* ... and the list is marked complete only when no hook may add more and nothing was left out *)
+Theorem C06_hooked_complete_flag_sound : forall max has_hooks string_typed results er exprc,
+  fst (attr_value_completion max has_hooks string_typed results er exprc) = true ->
+  has_hooks = false /\
+  snd (attr_value_completion max has_hooks string_typed results er exprc) = map as_expr exprc /\
+  (length exprc <= max)%nat.
+Proof. exact attr_value_completion_complete. Qed.
+Print Assumptions C06_hooked_complete_flag_sound.
